@@ -89,8 +89,8 @@ CLAIMED = {
              "ahead; front event <=> mu*xi = cs^2; for constant sound speed these imply momentum-flux continuity; the template shooting "
              "residual is equivalent to the same two conditions; detonation passes vw, Tn through; kappa integrand = xi^2 w gamma^2 v^2. "
              "An independent integrator in the similarity variable (harness-owned) re-derives Tn and kappa from every real matching.",
-        note="the ODE solution is an oracle: partial on integration accuracy (Tn 2e-4, kappa 3e-2). Known finding C03-K: kappa of "
-             "near-Jouguet hybrids is off by several percent at default rtol (Simpson on coarse RK45 steps).",
+        note="the ODE solution is an oracle: partial on integration accuracy (Tn 2e-4, kappa 1e-2). Defect fixed in /repo 4720217 "
+             "(efficiencyFactor: Simpson on the coarse adaptive RK45 steps, hybrids off by 5-20 %).",
         technique="Lean 4 proof over regenerated model + translator validation + independent-integrator monitor", ref="4/C03"),
     "C14": dict(
         text="Lean 4 theorems (Props.C14, 29 theorems): model of newFromDirectory/loadCollisions -- on success block (i,j) is exactly the dataset "
@@ -184,6 +184,32 @@ CLAIMED = {
         note="brentq and the inner pressure iteration are oracles (convergence not proved): partial; out-of-equilibrium runs need collision "
              "files and are covered at the Boltzmann level (C12-C14), end-to-end runs are LTE.",
         technique="Lean 4 proof over decision model + scripted-stub correspondence + end-to-end history monitor", ref="4/C01"),
+    "C07": dict(
+        text="Lean 4 weight theorems (Props.C07, Lemmas.Scaling): every regenerated formula family is homogeneous of the stated weight under "
+             "T, fields, masses -> u*(.), V -> u^4 V: equation of state incl. the extrapolation parameters assigned by setExtrapolate, junction "
+             "relations and boundary constants, shock equations, template closed forms, both grid maps and their Jacobians, Boltzmann "
+             "integrand/source, the EOM hand model, the finite-difference stencils with steps proportional to the variation scales; which "
+             "tolerance predicates are scale invariant and which are not. Metamorphic end-to-end runs of the REAL pipeline (phase tracing, "
+             "thermodynamics, hydrodynamics, LTE wall solve) under unit factors 1e-2..1e2 with default and tightened tolerances: dimensionless "
+             "outputs within solver tolerance, dimensionful ones by the proved weights.",
+        note="iterative solvers are oracles (dimensionless outputs compared at 2*errTol / 1e-5); absolute constants inside scipy defaults are "
+             "exercised by the metamorphic runs, not modelled: partial on the solver internals.",
+        technique="Lean 4 proof over regenerated model + translator validation + metamorphic end-to-end monitor", ref="4/C07"),
+    "C20": dict(
+        text="Lean 4 theorems (Props.C20, 38 theorems): the six regenerated integrands ARE the real/imaginary parts of the defining complex "
+             "integrand with principal sqrt and log (log|2 sin|, arctan(cot), log|2 cos|, arctan(tan) identities for EVERY angle), exact "
+             "regulator error bounds, the wrapper splits where the radicand changes sign; thermal sum: Stefan-Boltzmann value, additivity, "
+             "homogeneity, continuity in masses and temperature, Boltzmann suppression (from stated hypotheses on J); the abscissae of both "
+             "shipped tables, regenerated into Lean each run, are linspace(-20,1000,10000) to 6e-13, strictly increasing, identical for Jb/Jf "
+             "(decide +kernel over all 10000 rows). Real code: direct integrals vs an independent principal-log quadrature and the Bessel "
+             "series (also beyond both table ends), EVERY row of both tables vs that reference, interpolated values and first derivatives off "
+             "the nodes, J(0), decay, Stefan-Boltzmann / heavy / generic / continuity of the real one-loop potential, thermal-sum model vs "
+             "potentialOneLoopThermal with stub integrals.",
+        note="J(0), continuity and decay of J are hypotheses of the thermal-sum theorems (monitored numerically); quad/CubicSpline are oracles. "
+             "Defect fixed in /repo bc9edb8 (quadrature across singularities, 99 corrupted Jf table rows); known finding C20-Z (tables cannot "
+             "resolve the branch points x=0, -pi^2: 1e-3 / 9 % instead of 1e-6 / 1e-4).",
+        technique="Lean 4 proof over regenerated integrands and table abscissae + translator validation + independent-reference monitor", ref="4/C20"),
+
 }
 
 NOT_YET = "check not built yet in this round (design in DESIGN.md section 4); listed here until its Lean module and harness are committed"
